@@ -377,13 +377,17 @@ def make_mutant(sources, module, cls, name, op, idx):
 
 def run_on(pid, sources):
     """-> (status, new violation idents)   status in ok / violation / analysis-error"""
+    chk = None
+    err = None
     try:
         chk = Check(pid, Program(sources))
         registry.run_property(pid, chk)
     except AnalysisError as e:
-        return "analysis-error", [str(e)[:200]]
+        err = str(e)[:200]
     except Exception as e:  # noqa
-        return "analysis-error", ["internal: %r" % (e,)]
+        err = "internal: %r" % (e,)
+    if err is not None and (chk is None or not chk.violations):
+        return "analysis-error", [err]
     known = load_known()
     listed = set((k["rule"], k["module"], k["host"], k["key"]) for k in known.get("findings", []) if k.get("property") == pid)
     new = [v for v in chk.violations if v.ident() not in listed]
